@@ -18,7 +18,8 @@ vars == <<l, vm, cx, mode, nsteps>>
 Ev == Trace[l]
 
 NoVM == [st |-> "none"]
-Cx(e) == [genesis |-> e.genesis, f |-> e.f, lt |-> e.lt, seq |-> e.seq, ver |-> e.ver]
+Cx(e) == [genesis |-> e.genesis, f |-> e.f, lt |-> e.lt, seq |-> e.seq, ver |-> e.ver,
+          sigmode |-> IF Has(e, "sx") THEN "oracle" ELSE "none", sx |-> IF Has(e, "sx") THEN e.sx ELSE <<>>]
 
 HashKind(op) == CASE op = OP_RIPEMD160 -> "ripemd160" [] op = OP_SHA1 -> "sha1" [] op = OP_SHA256 -> "sha256"
                   [] op = OP_HASH160 -> "hash160" [] OTHER -> "sha256d"
